@@ -169,7 +169,7 @@ class Scripted:
                 raise NotBatchable("this learner cannot handle batches")
             if self.nobatch == "none":
                 return None
-            if self.nobatch == "typeerror":
+            if self.nobatch == "keyerror":
                 return self._single(context[0], actions)     # treats the batch of action lists as one action list -> KeyError
             raise NotBatchable(self.nobatch)
         n = len(actions)
